@@ -10,7 +10,15 @@ import (
 func main() {
 	c := core.New("C02", "model_checking")
 	c.Set("rule", "same lattice exploration as C01; on every edge the emitted blocks are checked: delivered set == ancestors-or-self of the Atropos minus everything delivered by earlier blocks of the epoch, nothing delivered twice, frames consecutive from 1 per epoch, Atropos is a registered root of its frame, last decided frame == number of blocks")
+	// quick tier: the (small) multi-epoch part first, so that a wall-clock cap on a loaded machine cannot starve it;
+	// thorough tier: the multi-epoch part is large and comes last (its quick version ran in the quick stage)
+	epochs := func() { cons.ExploreEpochs(c, cons.Report{"content": true}, true) }
+	if c.Quick() {
+		epochs()
+	}
 	cons.ExploreConsensus(c, cons.DefaultConsFamilies(c.Quick(), true).Light(), cons.Report{"content": true})
-	cons.ExploreEpochs(c, cons.Report{"content": true}, true)
+	if !c.Quick() {
+		epochs()
+	}
 	c.Finish()
 }
